@@ -95,7 +95,7 @@ type ReservedCase struct {
 	Other int  `json:"other"` // 0 alone, 1 `and kw:v0`, 2 `or kw:v0`
 }
 
-var reservedForms = []string{"kw:\"v\ue000\"", "kw:'v\ue000'", "kw:`v\ue000`", "kw:v\ue000", "kw:\"v\\uE000\"", "kw:'\\ue000v'", "kw:\"\ue000\"", "kw:\"v\\U0000E000z\""}
+var reservedForms = []string{"kw:\"v\ue000\"", "kw:'v\ue000'", "kw:`v\ue000`", "kw:v\ue000", "kw:\"v\\uE000\"", "kw:'\\ue000v'", "kw:\"\ue000\"", "kw:\"v\\U0000E000z\"", "kw:\"v\\xee\\x80\\x80\"", "kw:\"\\356\\200\\200v\"", "kw:\"v\\xee\"\"\\x80\\x80\"", "kw:'v\\xee\\x80'\"\\x80z\""}
 
 func genReserved(t *rapid.T) ReservedCase {
 	return ReservedCase{Form: rapid.IntRange(0, len(reservedForms)-1).Draw(t, "form"), Neg: rapid.Bool().Draw(t, "neg"), Other: rapid.IntRange(0, 2).Draw(t, "other")}
